@@ -190,7 +190,7 @@ namespace {
         J op = J::object();
         int f = int(plan.below(5));
         int d = int(plan.below(3));
-        const int k = int(plan.below(i < 3 ? 3 : 14));
+        const int k = int(plan.below(i < 3 ? 3 : 15));
         if (k >= 3 && !existing.empty() && plan.chance(850)) {
           // most operations name a file that exists somewhere (possibly outside the search path)
           const auto &e = existing[size_t(plan.below(existing.size()))];
@@ -206,6 +206,10 @@ namespace {
           existing.emplace_back(d, int(op.at("f").num()));
         } else if (k == 3) {
           op["k"] = J("delete");
+        } else if (k == 14) {
+          // a DIRECTORY with the name of a script file: it can be opened but is not a file, the search goes on
+          op["k"] = J("mkdir");
+          op["f"] = J(int(plan.below(4)));
         } else if (k >= 12) {
           // the host takes a snapshot of the engine state / goes back to one: the used-file records go back with it,
           // a file used since then is evaluated again by the next use()
@@ -243,6 +247,7 @@ namespace {
       for (auto d : dnames) {
         ::mkdir((root + d).c_str(), 0777);
         for (auto f : fnames) {
+          ::rmdir((root + d + f).c_str());
           ::unlink((root + d + f).c_str());
         }
       }
@@ -266,6 +271,7 @@ namespace {
       std::map<std::string, std::string> disk; // full path -> content (the model's view of the directory tree)
       std::set<std::string> used;              // the model's used-file set
       std::set<std::string> open_fail;         // paths whose open fails during the current operation
+      std::set<std::string> dirs;              // directories that carry the name of a script file (never "present")
       Engine *te = twin.e.get();
       auto present = [&](const std::string &p) { return disk.count(p) && !open_fail.count(p); };
       std::function<Boxed_Value(const std::string &)> model_use = [&](const std::string &name) -> Boxed_Value {
@@ -317,6 +323,16 @@ namespace {
         const std::string dir = root + dnames[op.at("d").num() % 3];
         const std::string name = fnames[op.at("f").num() % 5];
         const std::string path = dir + name;
+        if (k == "mkdir") {
+          if (!disk.count(path) && !dirs.count(path) && ::mkdir(path.c_str(), 0777) == 0) {
+            dirs.insert(path);
+            r.counters["probe_directory_named_like_a_script"] += 1;
+          }
+          continue;
+        }
+        if (k == "write" && dirs.count(path)) {
+          continue; // the name is taken by a directory
+        }
         if (k == "write") {
           write_file(path, op.at("c").str());
           disk[path] = op.at("c").str();
@@ -327,6 +343,10 @@ namespace {
           continue;
         }
         if (k == "delete") {
+          if (dirs.count(path)) {
+            ::rmdir(path.c_str());
+            dirs.erase(path);
+          }
           ::unlink(path.c_str());
           disk.erase(path);
           continue;
